@@ -49,6 +49,27 @@ theorem blength_eq_write_appex (e : AppEx) (b : Bytes) (hb : bLengthAppEx e ≤ 
   rw [hl, ← encSegs_ex]
   exact write_copy 0 _ _ (ex_realises e) b (by rw [encSegs_ex, ← hl]; exact hb)
 
+/-- `FastWrite(b)` is `FastWriteNocopy(b, nil)` (one-line wrappers in k-base.go): same bytes, same length,
+    on every buffer -/
+theorem fastWrite_eq_nocopy_nil (thr : Nat) (p : Option Base) (q : Option BaseResp) (it : SMap) (b : Bytes) :
+    fastWriteBase thr p it b = fastWriteNocopyBase thr false p it b ∧
+    fastWriteBaseResp thr q it b = fastWriteNocopyBaseResp thr false q it b := ⟨rfl, rfl⟩
+
+/-- a value built with NewBase()/NewBaseResp() and the setters reads back through the getters as itself
+    (GetExtra returns the nil default exactly when the map is unset; IsSetExtra = (Extra != nil)) -/
+theorem accessors_roundtrip (p : Base) (q : BaseResp) :
+    viaAccessorsBase p = p ∧ viaAccessorsBaseResp q = q ∧
+    (∀ e, isSetExtra e = true ↔ e ≠ none) ∧ (∀ e, getExtra e = e) := by
+  refine ⟨?_, ?_, ?_, ?_⟩
+  · cases p with | mk l c a e => cases e <;> rfl
+  · cases q with | mk m c e => cases e <;> rfl
+  · intro e; cases e <;> simp [isSetExtra]
+  · intro e; cases e <;> rfl
+
+/-- InitDefault resets exactly the defaulted (non-optional) fields and leaves the optional map alone -/
+theorem initDefault_eq (p : Base) (q : BaseResp) :
+    initDefaultBase p = p.withDefaults ∧ initDefaultBaseResp q = q.withDefaults := ⟨rfl, rfl⟩
+
 /-- FastMarshal returns exactly the encoding, whatever the fresh buffer contained -/
 theorem fastMarshal_base (dirt : Nat → UInt8) (p : Option Base) (it1 it2 : SMap)
     (h1 : ∀ q, p = some q → IterOf q.extra it1) (h2 : ∀ q, p = some q → IterOf q.extra it2) :
